@@ -10,7 +10,11 @@
 (* is counted whether or not the model would allow it -- and the property  *)
 (* predicates of ParSeq (SeqOrderOK, OnceOK, AccOK, SetupOK, WithOK,       *)
 (* Buildable) are evaluated by TLC in every state.  The trace is always    *)
-(* consumed to the end.                                                    *)
+(* consumed to the end.  Every call into Par/Seq/ParSeq (new, with,        *)
+(* reads/writes, setup, dispatch) runs under catch_unwind in the harness:  *)
+(* a panic of ANY kind the model does not produce for that call (only      *)
+(* `with` may panic, and only with the conflict message) clears the flag   *)
+(* of the C16 aspect the call belongs to -- never a tool error.            *)
 (***************************************************************************)
 EXTENDS ParSeq, TLC, Json, IOUtils
 
@@ -62,7 +66,7 @@ TrBuilt ==
 \* reads()/writes() reported by node n
 TrAcc ==
   /\ Is("acc")
-  /\ fl' = [fl EXCEPT !.acc = @ /\ E.n \in Nodes(node) /\ AccOK(node, E.n, E.r, E.w)]
+  /\ fl' = [fl EXCEPT !.acc = @ /\ E.out = "ok" /\ E.n \in Nodes(node) /\ AccOK(node, E.n, E.r, E.w)]
   /\ UNCHANGED <<node, phase, att, running, nf, nfin, ndisp, nsetup, nsetups, insetup>> /\ Same
 
 TrSetupBegin ==
@@ -81,7 +85,7 @@ TrSetup ==
 TrSetupEnd ==
   /\ Is("setup_end")
   /\ insetup' = FALSE /\ nsetups' = nsetups + 1
-  /\ fl' = [fl EXCEPT !.setup = @ /\ SetupOK(node, nsetup)]
+  /\ fl' = [fl EXCEPT !.setup = @ /\ E.out = "ok" /\ SetupOK(node, nsetup)]
   /\ UNCHANGED <<node, phase, att, running, nf, nfin, ndisp, nsetup>> /\ Same
 
 TrBegin ==
